@@ -300,6 +300,19 @@ typedef struct {
 	int nlive;
 } dyn_t;
 
+/* API-level variants of a run (0: none): 1 RSA anchor keys written with leading zero bytes; 2 time callback
+ * reports the time as unavailable at certificate g_variant_arg; 4 the last byte of certificate g_variant_arg is
+ * missing (announced and appended length both one less); 5 an empty certificate first */
+static int g_variant, g_variant_arg;
+
+static unsigned char *pad_dup(const unsigned char *src, size_t len, size_t pad)
+{
+	unsigned char *p = malloc(len + pad ? len + pad : 1);
+	memset(p, 0, pad);
+	if (len) memcpy(p + pad, src, len);
+	return p;
+}
+
 static void fill_ta(br_x509_trust_anchor *ta, const anchor_t *a, const unsigned char *dn, size_t dn_len)
 {
 	memset(ta, 0, sizeof *ta);
@@ -308,8 +321,13 @@ static void fill_ta(br_x509_trust_anchor *ta, const anchor_t *a, const unsigned 
 	ta->flags = a->flags;
 	ta->pkey.key_type = (unsigned char)a->kt;
 	if (a->kt == BR_KEYTYPE_RSA) {
-		ta->pkey.key.rsa.n = vf_dup(a->a, a->alen); ta->pkey.key.rsa.nlen = a->alen;
-		ta->pkey.key.rsa.e = vf_dup(a->b, a->blen); ta->pkey.key.rsa.elen = a->blen;
+		if (g_variant == 1) {
+			ta->pkey.key.rsa.n = pad_dup(a->a, a->alen, 2); ta->pkey.key.rsa.nlen = a->alen + 2;
+			ta->pkey.key.rsa.e = pad_dup(a->b, a->blen, 1); ta->pkey.key.rsa.elen = a->blen + 1;
+		} else {
+			ta->pkey.key.rsa.n = vf_dup(a->a, a->alen); ta->pkey.key.rsa.nlen = a->alen;
+			ta->pkey.key.rsa.e = vf_dup(a->b, a->blen); ta->pkey.key.rsa.elen = a->blen;
+		}
 	} else {
 		ta->pkey.key.ec.curve = a->curve;
 		ta->pkey.key.ec.q = vf_dup(a->a, a->alen); ta->pkey.key.ec.qlen = a->alen;
@@ -380,6 +398,7 @@ static int time_cb(void *vctx, uint32_t nbd, uint32_t nbs, uint32_t nad, uint32_
 		w[0] = nbd; w[1] = nbs; w[2] = nad; w[3] = nas;
 	}
 	t->r->ntcb ++;
+	if (g_variant == 2 && t->r->ntcb - 1 == g_variant_arg) return 2 + (int)(nbd & 1) * 40;   /* neither -1, 0 nor +1 */
 	if (t->c->days < nbd || (t->c->days == nbd && t->c->secs < nbs)) return -1;
 	if (t->c->days > nad || (t->c->days == nad && t->c->secs > nas)) return 1;
 	return 0;
@@ -438,7 +457,7 @@ static void run_chain(case_t *c, int amode, int chmode, uint64_t chseed, result_
 		}
 	}
 	tctx.c = c; tctx.r = r;
-	if (c->tmode) br_x509_minimal_set_time_callback(xc, &tctx, &time_cb);
+	if (c->tmode || g_variant == 2) br_x509_minimal_set_time_callback(xc, &tctx, &time_cb);
 	else br_x509_minimal_set_time(xc, c->days, c->secs);
 	if (c->minrsa >= 0) br_x509_minimal_set_minrsa(xc, c->minrsa);
 	memset(&dyn, 0, sizeof dyn);
@@ -456,10 +475,13 @@ static void run_chain(case_t *c, int amode, int chmode, uint64_t chseed, result_
 	if (c->nne) br_x509_minimal_set_name_elements(xc, nes, (size_t)c->nne);
 
 	xc->vtable->start_chain(&xc->vtable, c->sn);
+	if (g_variant == 5) { xc->vtable->start_cert(&xc->vtable, 0); xc->vtable->end_cert(&xc->vtable); }
 	for (i = 0; i < c->ncerts; i ++) {
-		cert_t *x = &c->certs[i];
+		cert_t *x = &c->certs[i], xv;
 		size_t off = 0;
 		uint32_t maxc = 1;
+		if (g_variant == 4 && i == g_variant_arg && x->len > 1) { xv = *x; xv.len --; x = &xv; xc->vtable->start_cert(&xc->vtable, (uint32_t)x->len); }
+		else
 		xc->vtable->start_cert(&xc->vtable, (uint32_t)x->len);
 		if (chmode == CH_RANDOM) {
 			static const uint32_t mx[] = { 1, 2, 3, 7, 16, 64, 100, 255, 256, 257, 1000, 4096 };
@@ -661,6 +683,41 @@ int main(int argc, char **argv)
 					break;
 				}
 			}
+		}
+
+		/* API-level variants on accepted chains */
+		if (c.exp == 'A' && r0.err == 0 && (c.chunk & 1)) {
+			result_t rv;
+			int depth = c.depth >= 0 ? c.depth : 0;
+			g_variant = 1;
+			run_chain(&c, AM_STATIC, CH_WHOLE, 0, &rv);
+			vf_stat("cmp_variant_padded_anchor_key", 1);
+			if (!same_result(&r0, &rv)) {
+				key_of(key, sizeof key, "variant:anchor-key-leading-zeros", &c);
+				snprintf(extra, sizeof extra, "plain:err=%u padded:err=%u", r0.err, rv.err);
+				vf_viol(key, "RSA trust anchor keys written with leading zero bytes give another result", "%s", case_desc(&c, extra));
+			}
+			g_variant = 2; g_variant_arg = (int)((c.chunk >> 1) % (unsigned)(depth + 1));
+			run_chain(&c, AM_STATIC, CH_WHOLE, 0, &rv);
+			vf_stat("cmp_variant_time_unavailable", 1);
+			if (rv.err != BR_ERR_X509_TIME_UNKNOWN) {
+				key_of(key, sizeof key, "variant:time-unavailable", &c);
+				snprintf(extra, sizeof extra, "time callback returned an out-of-range value at certificate %d: err=%u, documented %d", g_variant_arg, rv.err, BR_ERR_X509_TIME_UNKNOWN);
+				vf_viol(key, "time callback reporting the time as unavailable does not end validation with BR_ERR_X509_TIME_UNKNOWN", "%s", case_desc(&c, extra));
+			}
+			/* (a length announced to start_cert that differs from the bytes appended is a misuse of the API by the
+			   caller, not an input: not exercised) */
+			for (g_variant = 4; g_variant <= 5; g_variant ++) {
+				g_variant_arg = (int)((c.chunk >> 3) % (unsigned)(depth + 1));
+				run_chain(&c, AM_STATIC, (c.chunk >> 5) & 1 ? CH_RANDOM : CH_WHOLE, c.chunk, &rv);
+				vf_stat("cmp_variant_cert_length", 1);
+				if (rv.err == 0) {
+					key_of(key, sizeof key, "variant:certificate-length", &c);
+					snprintf(extra, sizeof extra, "variant=%s certificate=%d", g_variant == 4 ? "last byte of the certificate missing" : "empty certificate first", g_variant_arg);
+					vf_viol(key, "chain accepted although a certificate is truncated / empty / shorter than announced", "%s", case_desc(&c, extra));
+				}
+			}
+			g_variant = 0;
 		}
 
 		/* (1)-(3) expectation */
